@@ -139,8 +139,11 @@ C05_DigestsStable ==
         /\ \A x \in S(pre[r].ents) \cap S(post[r].ents) : DigOf(pre[r], x) = DigOf(post[r], x)
         /\ \A i \in DOMAIN post[r].ents : post[r].digs[i] = post[r].getdigs[i]]_vars
 \* the same content for the same hash in every replica (no replica holds an altered copy)
+\* (objects held by different logs are compared on every field but the additional data, where a link-sealing codec
+\*  keeps the sealed form of the links of the entries it wrote itself - a copy decoded from the store has none)
+LDigOf(o, x) == LET i == CHOOSE k \in DOMAIN o.ents : o.ents[k] = x IN o.ldigs[i]
 C05_OneContentPerHash ==
-  \A r, s \in R : \A x \in S(Obs[r].ents) \cap S(Obs[s].ents) : DigOf(Obs[r], x)[1] = DigOf(Obs[s], x)[1]
+  \A r, s \in R : \A x \in S(Obs[r].ents) \cap S(Obs[s].ents) : LDigOf(Obs[r], x) = LDigOf(Obs[s], x)
 C05_OthersUntouched ==
   [][IsStep => \A r \in R : r # ev.r => post[r] = pre[r]]_vars
 \* whatever happens to one log, every other log keeps listing and returning its own entries
@@ -184,13 +187,13 @@ C06_OnlyValidAdded ==
           /\ UU[x].lid = pre[ev.r].lid
           /\ UU[x].w \notin DeniedBy(ev.r)
           /\ x \notin BadIdsOf(pre[ev.s])
-          /\ DigOf(post[ev.r], x)[1] = OrigOf(post[ev.r], x)]_vars
+          /\ LDigOf(post[ev.r], x) = OrigOf(post[ev.r], x)]_vars
 \* replicas the script never tampered with hold genuine objects only, and their heads are entries
 C06_HonestHoldGenuine ==
   \A r \in R : Obs[r].bad = <<>> =>
-     /\ \A i \in DOMAIN Obs[r].ents : Obs[r].digs[i] = Obs[r].origdigs[i]
+     /\ \A i \in DOMAIN Obs[r].ents : Obs[r].ldigs[i] = Obs[r].origdigs[i]
      /\ S(Obs[r].heads) \subseteq S(Obs[r].ents)
-     /\ \A x \in S(Obs[r].ents) : UU[x].lid = Obs[r].lid
+     /\ ~Obs[r].mixed => \A x \in S(Obs[r].ents) : UU[x].lid = Obs[r].lid
 \* for causally closed logs the candidates of a join are the source entries the destination lacks
 JoinScope == IsStep /\ ev.op \in {"J", "JB"} /\ ev.r # ev.s /\ pre[ev.r].lid = pre[ev.s].lid
                /\ pre[ev.r].pure /\ pre[ev.s].pure
